@@ -69,6 +69,7 @@ func runLBMix(x *X) {
 			// C03: no sequence of backend faults may deadlock or wedge the proxy
 			x.Violate("C03", "C03/"+e.Kind+"{"+strings.Join(e.Sites, "+")+"}", "after %d injected backend faults: %s", faultsInjected, e.Error())
 		}
+		x.Blocked(e, "lbmix")
 	}
 	simrt.WGMisuse = func(site string) {
 		x.Violate("C12", "C12/waitgroup-misuse{"+site+"}", "WaitGroup.Add at %s races with a Wait that found the counter at zero (sync.WaitGroup panics: reused before previous Wait has returned)", site)
